@@ -23,3 +23,69 @@ Theorem no_write_access :
 Proof. exact Conc.no_write_access. Qed.
 Print Assumptions no_write_access.
 
+
+(* ---- instantiation: Evaluate / Execute as programs over shared cells (C12b.v) ---- *)
+From Coq Require Import List String ZArith NArith Bool. From Bexpr Require Import Base Strconv Ast Univ Eval Api Conc C12b GoTables TieWrites. Import ListNotations.
+
+Theorem evaluate_write_free :
+  forall (re : string -> string -> option bool) (ev : evaluator) (d : iface), write_free cell unit outcome (evaluate_prog re ev d).
+Proof. exact C12b.evaluate_write_free. Qed.
+Print Assumptions evaluate_write_free.
+
+Theorem execute_write_free :
+  forall (re : string -> string -> option bool) (ev : evaluator) (d : iface), write_free cell unit exres (execute_prog re ev d).
+Proof. exact C12b.execute_write_free. Qed.
+Print Assumptions execute_write_free.
+
+Theorem evaluate_prog_result :
+  forall (re : string -> string -> option bool) (ev : evaluator) (d : iface) (s : store cell unit),
+  exists fuel : nat, run_seq cell unit outcome cell_eqb fuel s (evaluate_prog re ev d) = Some (evaluate re ev d).
+Proof. exact C12b.evaluate_prog_result. Qed.
+Print Assumptions evaluate_prog_result.
+
+Theorem concurrent_evaluate :
+  forall (re : string -> string -> option bool) (sched : list nat) (s : store cell unit) (calls : list (evaluator * iface)),
+  let ps := map (fun c : evaluator * iface => evaluate_prog re (fst c) (snd c)) calls in
+  fst (run_sched cell unit outcome cell_eqb sched s ps) = s /\
+  (forall (j : nat) (a : outcome),
+   nth_error (snd (run_sched cell unit outcome cell_eqb sched s ps)) j = Some (Ret cell unit outcome a) ->
+   exists (ev : evaluator) (d : iface), nth_error calls j = Some (ev, d) /\ a = evaluate re ev d).
+Proof. exact C12b.concurrent_evaluate. Qed.
+Print Assumptions concurrent_evaluate.
+
+Theorem evaluate_no_write :
+  forall (re : string -> string -> option bool) (ev : evaluator) (d : iface) (fuel : nat) (s : store cell unit),
+  forallb (fun a : access cell => negb (is_write cell a)) (trace cell unit outcome cell_eqb fuel s (evaluate_prog re ev d)) = true.
+Proof. exact C12b.evaluate_no_write. Qed.
+Print Assumptions evaluate_no_write.
+
+Theorem execute_no_write :
+  forall (re : string -> string -> option bool) (ev : evaluator) (d : iface) (fuel : nat) (s : store cell unit),
+  forallb (fun a : access cell => negb (is_write cell a)) (trace cell unit exres cell_eqb fuel s (execute_prog re ev d)) = true.
+Proof. exact C12b.execute_no_write. Qed.
+Print Assumptions execute_no_write.
+
+Theorem unrepaired_evaluate_writes_shared_cell :
+  let re := fun _ _ : string => Some true in
+  let t := trace cell unit outcome cell_eqb 10 (fun _ : cell => tt) (evaluate_prog_unrepaired re race_witness_ev None) in
+  existsb (fun a : access cell => match a with
+                                  | AWr _ (LConv "a+") => true
+                                  | _ => false
+                                  end) t = true /\
+  existsb (fun a : access cell => match a with
+                                  | ARd _ (LConv "a+") => true
+                                  | _ => false
+                                  end) t = true.
+Proof. exact C12b.unrepaired_evaluate_writes_shared_cell. Qed.
+Print Assumptions unrepaired_evaluate_writes_shared_cell.
+
+Theorem field_writes_pinned :
+  go_field_writes = [("bexpr.go", "compileRegexps", "node.Value.Converted"); ("evaluate.go", "evaluateNotPresent", "ptr.Parts")].
+Proof. exact TieWrites.field_writes_pinned. Qed.
+Print Assumptions field_writes_pinned.
+
+Theorem evaluation_path_writes_only_the_per_call_pointer :
+  evaluation_path_writes = [("evaluate.go", "evaluateNotPresent", "ptr.Parts")].
+Proof. exact TieWrites.evaluation_path_writes_only_the_per_call_pointer. Qed.
+Print Assumptions evaluation_path_writes_only_the_per_call_pointer.
+
